@@ -271,8 +271,9 @@ def run(ctx):
         with_tests = set(rng.sample(FEATURES, 6))
         for f in FEATURES:
             configs.append(((f,), True, f in with_tests))
-        for f in sorted(with_tests):
-            configs.append(((f,), False, True))
+        # every feature alone also without `std` (repository tests only for the sampled ones)
+        for f in FEATURES:
+            configs.append(((f,), False, f in with_tests))
         for a, b in [tuple(sorted(rng.sample(FEATURES, 2))) for _ in range(6)]:
             configs.append(((a, b), rng.random() < 0.5, False))
     else:
